@@ -121,6 +121,42 @@ fn contains_pair(input: &[u8], t: &str, p: &[u8]) -> bool {
     rest.len() >= pl && &rest[..pl] == p
 }
 
+/// One pair through pack, the reference, unpack and try_unpack. Returns the packed bytes.
+fn check_pack(acc: &mut Acc, t: &str, p: &[u8]) -> Option<Vec<u8>> {
+    acc.evaluations += 1;
+    let short = |p: &[u8]| if p.len() > 24 { format!("{}.. ({} bytes)", util::hex(&p[..24]), p.len()) } else { util::hex(p) };
+    let witness = || {
+        if t.len() > 40 || p.len() > 40 {
+            json!({"kind": "pack-long", "type_char": t.chars().next().map(|c| c.to_string()), "type_chars": t.chars().count(), "type_bytes": t.len(), "payload_byte": p.first(), "payload_len": p.len(), "payload_shown": short(p)})
+        } else {
+            json!({"kind": "pack", "type": t, "payload_hex": util::hex(p)})
+        }
+    };
+    match pack(t, p) {
+        Guard::Panicked(loc, msg) => {
+            acc.violation(&format!("pack-panic:{loc}"), &format!("pack panics at {loc}: {msg}"), witness);
+            None
+        }
+        Guard::Done(bytes) => {
+            if bytes != pae_ref(t, p) {
+                acc.outcome("pack:differs-from-reference");
+                acc.violation("pack-reference-mismatch", "packed bytes differ from the DSSE v1 reference encoding", witness);
+            }
+            for variant in [false, true] {
+                match unpack(&bytes, variant) {
+                    Unpacked::Pair(p2, t2) if p2 == p && t2 == t => acc.outcome("roundtrip:ok"),
+                    Unpacked::Panic(loc, msg) => acc.violation(&format!("unpack-panic:{loc}"), &format!("unpacking a packed pair panics at {loc} ({msg})"), witness),
+                    _ => {
+                        acc.outcome("roundtrip:mismatch");
+                        acc.violation("roundtrip-mismatch", "unpack(pack(type, payload)) is not the original pair", witness)
+                    }
+                }
+            }
+            Some(bytes)
+        }
+    }
+}
+
 fn bytes_upto(alpha: &[u8], k: usize) -> Vec<Vec<u8>> {
     let mut out = Vec::new();
     for len in 0..=k {
@@ -149,45 +185,9 @@ pub fn run(tier: Tier) -> i32 {
         || (Acc::new(), Vec::<(Vec<u8>, usize)>::new()),
         |(acc, packed), idx, &(i, j)| {
             let (t, p) = (&types[i], &pays[j]);
-            acc.evaluations += 1;
             acc.sample(|| json!({"kind": "pack", "type": t, "payload_hex": util::hex(p)}));
-            match pack(t, p) {
-                Guard::Panicked(loc, msg) => acc.violation(
-                    &format!("pack-panic:{loc}"),
-                    &format!("pack panics at {loc}: {msg}"),
-                    || json!({"kind": "pack", "type": t, "payload_hex": util::hex(p)}),
-                ),
-                Guard::Done(bytes) => {
-                    if bytes != pae_ref(t, p) {
-                        acc.outcome("pack:differs-from-reference");
-                        acc.violation(
-                            "pack-reference-mismatch",
-                            "packed bytes differ from the DSSE v1 reference encoding",
-                            || json!({"kind": "pack", "type": t, "payload_hex": util::hex(p)}),
-                        );
-                    }
-                    for variant in [false, true] {
-                        match unpack(&bytes, variant) {
-                            Unpacked::Pair(p2, t2) if &p2 == p && &t2 == t => {
-                                acc.outcome("roundtrip:ok")
-                            }
-                            Unpacked::Panic(loc, msg) => acc.violation(
-                                &format!("unpack-panic:{loc}"),
-                                &format!("unpacking a packed pair panics at {loc} ({msg})"),
-                                || json!({"kind": "pack", "type": t, "payload_hex": util::hex(p)}),
-                            ),
-                            _ => {
-                                acc.outcome("roundtrip:mismatch");
-                                acc.violation(
-                                    "roundtrip-mismatch",
-                                    "unpack(pack(type, payload)) is not the original pair",
-                                    || json!({"kind": "pack", "type": t, "payload_hex": util::hex(p)}),
-                                )
-                            }
-                        }
-                    }
-                    packed.push((bytes, idx));
-                }
+            if let Some(bytes) = check_pack(acc, t, p) {
+                packed.push((bytes, idx));
             }
         },
     );
@@ -208,6 +208,85 @@ pub fn run(tier: Tier) -> i32 {
             }
         }
     }
+    // ---- wider characters, short: upper case, 3- and 4-byte characters, NUL / TAB / LF; payload NUL, LF, 0x80
+    let wide_types = util::strings_upto(&[' ', '1', 'a', 'A', 'é', '\u{20ac}', '\u{1f600}', '\0', '\t', '\n'], 2);
+    let wide_pays = bytes_upto(&[b' ', b'1', b'a', 0xffu8, 0, b'\n', 0x80], 2);
+    let wide_pairs: Vec<(usize, usize)> = (0..wide_types.len()).flat_map(|i| (0..wide_pays.len()).map(move |j| (i, j))).collect();
+    let accs = util::par_fold(&wide_pairs, || (Acc::new(), Vec::<Vec<u8>>::new()), |(acc, packed), _idx, &(i, j)| {
+        if let Some(b) = check_pack(acc, &wide_types[i], &wide_pays[j]) {
+            packed.push(b);
+        }
+    });
+    let mut wide_seen: HashMap<Vec<u8>, ()> = HashMap::new();
+    let mut n_wide = 0u64;
+    for (a, packed) in accs {
+        acc.merge(a);
+        for b in packed {
+            n_wide += 1;
+            if wide_seen.insert(b.clone(), ()).is_some() {
+                acc.violation("pack-collision", "two different (type, payload) pairs pack to the same bytes", || json!({"kind": "collision-wide", "packed_hex": util::hex(&b)}));
+            }
+        }
+    }
+    acc.note_n("pack_pairs_wide_alphabet", n_wide);
+    acc.nontrivial += wide_seen.len() as u64;
+    drop(wide_seen);
+    // ---- lengths with two and more digits, and around the powers of 256
+    let lens = [9usize, 10, 11, 99, 100, 101, 255, 256, 257, 999, 1000, 65535, 65536, 65537];
+    let mut long_types: Vec<String> = vec![];
+    let mut long_pays: Vec<Vec<u8>> = vec![];
+    for l in lens {
+        long_types.push("a".repeat(l));
+        long_types.push("é".repeat(l)); // 2 l bytes, l characters
+        long_pays.push(vec![b'a'; l]);
+        long_pays.push(vec![0xff; l]);
+        long_pays.push((0..l).map(|i| b"1 "[i % 2]).collect());
+    }
+    long_types.push(String::new());
+    long_types.push("t".into());
+    long_pays.push(vec![]);
+    long_pays.push(b"p".to_vec());
+    let long_pairs: Vec<(usize, usize)> = (0..long_types.len()).flat_map(|i| (0..long_pays.len()).map(move |j| (i, j))).collect();
+    let accs = util::par_fold(&long_pairs, || (Acc::new(), Vec::<Vec<u8>>::new()), |(acc, packed), _idx, &(i, j)| {
+        if let Some(b) = check_pack(acc, &long_types[i], &long_pays[j]) {
+            packed.push(util::sha256(&b));
+        }
+    });
+    let mut long_seen: HashMap<Vec<u8>, ()> = HashMap::new();
+    for (a, packed) in accs {
+        acc.merge(a);
+        for b in packed {
+            if long_seen.insert(b, ()).is_some() {
+                acc.violation("pack-collision", "two different long (type, payload) pairs pack to the same bytes", || json!({"kind": "collision-long"}));
+            }
+        }
+    }
+    acc.note_n("pack_pairs_long", long_pairs.len() as u64);
+    acc.nontrivial += long_seen.len() as u64;
+    // ---- call histories of depth 2 on ONE thread: the encoding of y must not depend on the x
+    // that was packed / unpacked just before it (items include case and whitespace variants)
+    let hist_items: Vec<(String, Vec<u8>)> = {
+        let mut v = vec![];
+        for t in ["", "a", "A", "link", "Link", "LINK", "link ", " link", "é", "É", "application/vnd.in-toto+json", "APPLICATION/VND.IN-TOTO+JSON", "a\0", "a\t", "1", "11"] {
+            for p in [&b""[..], b"a", b"A", b"abc"] {
+                v.push((t.to_string(), p.to_vec()));
+            }
+        }
+        v
+    };
+    let before = acc.violations.len();
+    for x in &hist_items {
+        for y in &hist_items {
+            let _ = check_pack(&mut acc, &x.0, &x.1);
+            let _ = check_pack(&mut acc, &y.0, &y.1);
+            acc.transitions += 2;
+        }
+    }
+    acc.note_n("history_pairs", (hist_items.len() * hist_items.len()) as u64);
+    if acc.violations.len() > before {
+        acc.note("violations-first-seen-in-the-history-leg");
+    }
+    acc.states += (hist_items.len() * hist_items.len()) as u64;
     let n_pairs = pairs.len() as u64;
     acc.note_n("pack_pairs", n_pairs);
     acc.note_n("distinct_packed", all_packed.len() as u64);
@@ -290,6 +369,7 @@ pub fn run(tier: Tier) -> i32 {
     c.acc = acc;
     c.rule = format!(
         "pack: every (type, payload) with type <= {pack_len} chars over {{SP,1,a,é}} and payload <= {pack_len} bytes over {{SP,1,a,0xff}} (round trip through unpack and try_unpack, equality with the DSSE reference, pairwise distinctness via one hash set); \
+         plus the same through types <= 2 over {{SP,1,a,A,é,U+20AC,U+1F600,NUL,TAB,LF}} x payloads <= 2 over {{SP,1,a,0xff,NUL,LF,0x80}}, through type / payload lengths {{9,10,11,99,100,101,255,256,257,999,1000,65535,65536,65537}} (in bytes and, for a 2-byte filler, in characters) with three fillers, and every ordered pair of 64 items (case and whitespace variants of the type) packed one after the other on one thread; \
          unpack: every byte string <= {dec_len} over {{SP,0,1,2,9,a,+,0xff}} appended to 'DSSEv1 ', every string <= {raw_len} over {{D,S,E,v,1,SP}} without it, extreme lengths spelled out. \
          distinct_nontrivial = distinct packed encodings + decode inputs that were accepted as a pair"
     );
@@ -328,6 +408,13 @@ pub fn replay(case: &Value) -> Value {
                 Guard::Panicked(l, m) => (format!("pack panicked at {l}: {m}"), true),
             };
             json!({"observed": obs, "violation": if bad { json!("pack/roundtrip") } else { Value::Null }})
+        }
+        Some("pack-long") => {
+            let t = case["type_char"].as_str().unwrap_or("a").repeat(case["type_chars"].as_u64().unwrap_or(0) as usize);
+            let p = vec![case["payload_byte"].as_u64().unwrap_or(97) as u8; case["payload_len"].as_u64().unwrap_or(0) as usize];
+            let mut acc = Acc::new();
+            let _ = check_pack(&mut acc, &t, &p);
+            json!({"note": "filler re-created from its first character / byte", "violation": acc.violations.keys().next()})
         }
         Some("collision") => {
             let f = |x: &Value| {
